@@ -144,8 +144,11 @@ def graph_case(draw, tier):
         sched = gen.rebase_sched(draw(gen.sched_script(horizon, 0, max_ops=4)), start)
         if draw(st.booleans()):
             sched["every"] = draw(st.lists(gen.sched_op(min(horizon, 5)), min_size=1, max_size=2))
-        stmts.append({"id": f"n{i}", "op": "node", "ins": ins, "out": "TS[int]", "fn": "count", "sched": sched, "tags": TAGS,
-                      "valid": [], "log_inputs": True})
+        nd = {"id": f"n{i}", "op": "node", "ins": ins, "out": "TS[int]", "fn": "count", "sched": sched, "tags": TAGS,
+              "valid": [], "log_inputs": True}
+        if ins and draw(st.integers(0, 2)) == 0:
+            del nd["valid"]     # woken-but-not-ready evaluations (an input still invalid) must not lose pending requests
+        stmts.append(nd)
         ports.append(f"n{i}")
     stmts.append({"id": "rec", "op": "node", "ins": [ports[-1]], "log_inputs": False})
     return {"kind": "graph", "prog": {"start": start, "end": end, "stmts": stmts}}
